@@ -167,7 +167,8 @@ def fn_table(thorough):
     E("ComplexToMag2", {}, "small", 40, F("mag2"), sync=True)
     E("FloatToComplex", {}, "small", 40, F("f2c"), sync=True, kinds=["small", "small"])
     E("NrziDecode", {}, "bits", 80, F("nrzi"), sync=True)
-    masks = [(33, 0, 16), (5, 3, 4), (1, 0, 1), (9, 7, 5)] + ([(0x21, 0x1ffff, 16), (3, 0, 2), (18, 1, 6)] if thorough else [])
+    # seeds with and without the top register bit (bit `len`) set
+    masks = [(33, 0, 16), (5, 3, 4), (1, 0, 1), (9, 7, 5), (0x21, 0x1ffff, 16), (5, 0x1f, 4), (3, 7, 2), (9, 0x2a, 5)] + ([(3, 0, 2), (18, 1, 6), (18, 0x55, 6)] if thorough else [])
     for mask, seed, ln in masks:
         E("Descrambler", {"mask": mask, "seed": seed, "len": ln}, "bits", 70, F("descramble", mask=mask, seed=seed, len=ln), sync=True)
     codes = [([1, 0, 1], 0), ([1, 1, 0], 1), ([1], 0), ([0, 1, 1, 0], 2)] + ([([0], 0), ([1, 0], 1), ([1, 1, 1, 1], 0)] if thorough else [])
